@@ -137,6 +137,8 @@ def _eb(d):
         parts.append("cname=" + str(d["EBLIF.cname"]))
     elif ".NAME" in d and d[".NAME"] is not None:
         parts.append("cname=" + str(d[".NAME"]))
+    if "EBLIF.output_covers" in d:       # .names: the single-output cover lines
+        parts.append("covers=" + "|".join(str(x) for x in d["EBLIF.output_covers"]))
     for key, tag in (("EBLIF.attr", "attr"), ("EBLIF.param", "param")):
         v = d[key] if key in d else None
         if isinstance(v, dict) and v:
